@@ -25,6 +25,13 @@ def _multigammaln(c, x):
     return mp.mpf(d * (d - 1)) / 4 * mp.log(mp.pi) + mp.fsum(mp.log(abs(mp.gamma(x[0] - mp.mpf(j - 1) / 2))) for j in range(1, d + 1))
 
 
+def _order(v):
+    """order of a modified Bessel function of the first kind: I_{-n} = I_n for integer n (avoids the complex branch mpmath
+    takes for a negative integer order at negative argument)"""
+    v = float(v)
+    return abs(int(v)) if v.is_integer() else mp.mpf(v)
+
+
 REF = {
     'kn': lambda c, x: mp.besselk(int(c[0]), x[0]),
     'j0': lambda c, x: mp.besselj(0, x[0]),
@@ -35,8 +42,8 @@ REF = {
     'yn': lambda c, x: mp.bessely(int(c[0]), x[0]),
     'i0': lambda c, x: mp.besseli(0, x[0]),
     'i1': lambda c, x: mp.besseli(1, x[0]),
-    'iv': lambda c, x: mp.besseli(mp.mpf(c[0]), x[0]),
-    'ive': lambda c, x: mp.besseli(mp.mpf(c[0]), x[0]) * mp.exp(-abs(x[0])),
+    'iv': lambda c, x: mp.besseli(_order(c[0]), x[0]),
+    'ive': lambda c, x: mp.besseli(_order(c[0]), x[0]) * mp.exp(-abs(x[0])),
     'beta': lambda c, x: mp.beta(x[0], x[1]),
     'betaln': lambda c, x: mp.log(abs(mp.beta(x[0], x[1]))),
     'betainc': lambda c, x: mp.betainc(mp.mpf(c[0]), mp.mpf(c[1]), 0, x[0], regularized=True),
